@@ -13,7 +13,7 @@ import random
 
 import numpy as np
 
-from .. import tlc, gen
+from .. import tlc, gen, realdata
 from ..common import Evidence, Reporter, import_mir_eval, Machinery, frac
 from ..relations import RelLog, call
 
@@ -216,6 +216,42 @@ def run(tier, seed):
             log.add("same", "hierarchy.lmeasure", base, call(h.lmeasure, hri, hrl, hei2, hel2, frame_size=fs),
                     {"what": "split est level %d" % lv, "t": t, "frame_size": fs, "ref_intervals": [x.tolist() for x in hri], "ref_labels": hrl,
                      "est_intervals": [x.tolist() for x in hei], "est_labels": hel})
+    # the repository's chord and segment fixtures (real annotations, hundreds of intervals, arbitrary decimal times): cut
+    # intervals at their midpoints - chord.evaluate (through its own alignment) and the labelling entries of
+    # segment.evaluate must not notice
+    def cut(iv, labs, ks):
+        rows, nl = [], []
+        for k_, (a_, b_) in enumerate(iv.tolist()):
+            if k_ in ks and b_ - a_ > 1e-3:
+                m_ = 0.5 * (a_ + b_)
+                rows += [[a_, m_], [m_, b_]]
+                nl += [labs[k_], labs[k_]]
+            else:
+                rows.append([a_, b_])
+                nl.append(labs[k_])
+        return np.array(rows), nl
+    n_real = 0
+    for nm, (ri, rl, ei, el) in realdata.pairs(me, "chord", None if thorough else 3):
+        base = call(c.evaluate, ri, rl, ei, el)
+        for side in ("ref", "est"):
+            iv, labs = (ri, rl) if side == "ref" else (ei, el)
+            ks = sorted(rng.sample(range(len(iv)), min(5, len(iv))))
+            ni, nl = cut(iv, labs, ks)
+            b = call(c.evaluate, ni, nl, ei, el) if side == "ref" else call(c.evaluate, ri, rl, ni, nl)
+            n_real += 1
+            log.add("close", "chord.evaluate", base, b, {"what": "split " + side, "fixture": "chord/" + nm, "cut_intervals": ks})
+    lab_only = lambda d: [float(v) for k2, v in d.items() if not (k2.startswith(("Precision@", "Recall@", "F-measure@")) or "deviation" in k2)]  # noqa
+    for nm, (ri, rl, ei, el) in realdata.pairs(me, "segment", None if thorough else 3):
+        a2 = call(lambda: lab_only(s.evaluate(ri, rl, ei, el)))
+        for side in ("ref", "est"):
+            iv, labs = (ri, rl) if side == "ref" else (ei, el)
+            ks = sorted(rng.sample(range(len(iv)), min(3, len(iv))))
+            ni, nl = cut(iv, labs, ks)
+            # only the frame-labelling entries are claimed (a cut adds a boundary, so detection / deviation change)
+            b2 = call(lambda: lab_only(s.evaluate(ni, nl, ei, el))) if side == "ref" else call(lambda: lab_only(s.evaluate(ri, rl, ni, nl)))
+            n_real += 1
+            log.add("same", "segment.evaluate[labelling]", a2, b2, {"what": "split " + side, "fixture": "segment/" + nm, "cut_intervals": ks})
+    ev.cov["repository_fixture_splits"] = n_real
     badl, stt = log.judge()
     ev.tlc("Trace_Rel", stt, "split / rescale relations on recorded outcome pairs")
     ev.cov["traces_validated_against_impl"] += len(log.events)
